@@ -539,7 +539,7 @@ theorem pCreateDirN_keeps {mu : FMap} {ms : List FMap} {k : Str} (cs : List Str)
   intro _ m hm
   split
   · exact hm
-  · exact andThen_keeps _ _ (Mem.pCreateDir_keeps _ hm) (fun _ m2 hm2 => pClear_keeps _ hne hm2)
+  · exact pCreateTail_keeps _ hne hm
 
 /-- `create_file(q)` keeps every key of the upper layer except `marker q` -/
 theorem pCreateFileN_keeps {mu : FMap} {ms : List FMap} {k : Str} (cs : List Str)
